@@ -329,3 +329,87 @@ func init() {
 			}
 		}})
 }
+
+// signedEntityOf: the first body part of a multipart/signed rendering exactly as emitted, after checking that
+// the detached CMS signature in the second part verifies over it
+func signedEntityOf(spc *MsgSpec, out []byte) ([]byte, error) {
+	ent, err := parseEntity(out, 0)
+	if err != nil {
+		return nil, err
+	}
+	if ent.MediaType != "multipart/signed" || len(ent.Children) != 2 {
+		return nil, fmt.Errorf("not a multipart/signed entity of two parts (%s, %d parts)", ent.MediaType, len(ent.Children))
+	}
+	der, _, err := ent.Children[1].decodedBody()
+	if err != nil {
+		return nil, fmt.Errorf("signature part does not decode: %v", err)
+	}
+	base := strings.TrimSuffix(spc.SMIME, "+ic")
+	ch, _ := getChain(base)
+	ic := ch.intermediate
+	if !strings.HasSuffix(spc.SMIME, "+ic") {
+		ic = nil
+	}
+	if _, err := verifyCMS(der, ent.Children[0].Raw, ch.leaf, ic); err != nil {
+		return ent.Children[0].Raw, err
+	}
+	return ent.Children[0].Raw, nil
+}
+
+func init() {
+	register(Suite{Name: "c11-signed", Property: "C11",
+		Rule: "S/MIME signed messages (generated shapes, RSA and ECDSA keys, with / without a caller boundary) rendered 2..4 times through a mix of WriteTo, Write, NewReader, UpdateReader, WriteToFile, WriteToTempFile: every render succeeds, its signature verifies over the first body part as emitted, and that signed entity is byte-identical to the one of the first render (signing time and ECDSA signatures may differ); oracle only - the model comparison of signed renders is part of c08-smime; distinct by (operations, history)",
+		Run: func(c *Ctx) {
+			defer cleanupTemp()
+			n := c.N(80, 4000)
+			kinds := []string{"rsa", "ecdsa", "rsa+ic", "ecdsa384"}
+			paths := []string{"WriteTo", "Write", "NewReader", "UpdateReader", "WriteToFile", "WriteToTempFile"}
+			for i := 0; i < n; i++ {
+				r := c.Rng
+				spc := genSpec(r, genOpts{maxParts: 2, maxFiles: 2, noFails: true, smallContent: true})
+				spc.Boundary = ""
+				if r.Chance(20) {
+					spc.Boundary = []string{"user-boundary-123", "=_caller_chosen_="}[r.Intn(2)]
+				}
+				if len(spc.Parts)+len(spc.Files) == 0 {
+					continue
+				}
+				for j := range spc.Parts {
+					spc.Parts[j].Content = canonCRLF(spc.Parts[j].Content)
+					spc.Parts[j].chunks = nil
+				}
+				spc.SMIME = kinds[r.Intn(len(kinds))]
+				m, _, err := spc.Build()
+				if err != nil {
+					c.Note("build: %v", err)
+					continue
+				}
+				hlen := 2 + r.Intn(3)
+				var history []string
+				var first []byte
+				var shared *mail.Reader
+				for h := 0; h < hlen; h++ {
+					path := paths[r.Intn(len(paths))]
+					history = append(history, path)
+					out, rerr, _ := renderVia(m, path, 0, &shared)
+					c.rep.OracleChecked++
+					in := map[string]interface{}{"spec": spc, "history": history}
+					if rerr != nil {
+						c.Violate("c11-render-error", fmt.Sprintf("render %d of a signed message via %s failed: %v", h+1, path, rerr), in)
+						break
+					}
+					signed, verr := signedEntityOf(spc, out)
+					if verr != nil {
+						c.Violate("c11-signed-render-invalid", fmt.Sprintf("render %d via %s (%s): %v", h+1, path, spc.SMIME, verr), in)
+						break
+					}
+					if first == nil {
+						first = signed
+					} else if !bytes.Equal(first, signed) {
+						c.Violate("c11-signed-entity-differs", fmt.Sprintf("the signed entity of render %d via %s differs from the one of the first render (%d vs %d bytes)", h+1, path, len(signed), len(first)), in)
+					}
+				}
+				c.Count(true, fmt.Sprint(i, history, spc.SMIME), spc.SMIME+":"+strings.Join(history[:min(len(history), 2)], ">"))
+			}
+		}})
+}
